@@ -110,6 +110,14 @@ func (s *VerifSink) onInboundChunk(c Chunk) {
 	s.got = append(s.got, VerifGot{ID: id, At: time.Now(), Intact: s.snaps[id] == verifSnap(c)})
 }
 
+// Len is the number of chunks received and not yet taken.
+func (s *VerifSink) Len() int {
+	s.mu.Lock()
+	defer s.mu.Unlock()
+
+	return len(s.got)
+}
+
 // Take returns and clears what the sink has received.
 func (s *VerifSink) Take() []VerifGot {
 	s.mu.Lock()
@@ -175,4 +183,79 @@ func VerifFindSock(n *Net, ip net.IP, port int) *UDPConn {
 	}
 
 	return c
+}
+
+// VerifNewTBF builds a TokenBucketFilter in front of a sink.
+func VerifNewTBF(rate, burst, queueBytes int) (*VerifFilter, error) {
+	s := &VerifSink{snaps: map[int]string{}}
+	f, err := NewTokenBucketFilter(s, TBFRate(rate), TBFMaxBurst(burst), TBFQueueSizeInBytes(queueBytes))
+	if err != nil {
+		return nil, err
+	}
+
+	return &VerifFilter{Sink: s, nic: f, TBF: f}, nil
+}
+
+// ---- delaying elements (C14) ----------------------------------------------------------------------
+
+// VerifDelayRouter is a started Router whose only NIC is a sink.
+type VerifDelayRouter struct {
+	R    *Router
+	Sink *VerifSink
+}
+
+type verifSinkNIC struct {
+	*VerifSink
+	ip  net.IP
+	ifc *transport.Interface
+}
+
+func (s *verifSinkNIC) getInterface(string) (*transport.Interface, error) { return s.ifc, nil }
+func (s *verifSinkNIC) getStaticIPs() []net.IP                           { return []net.IP{s.ip} }
+
+// VerifNewDelayRouter builds and starts a router (1.2.3.0/24) with a sink NIC at 1.2.3.4.
+func VerifNewDelayRouter(minDelay, maxJitter time.Duration, queueSize int) (*VerifDelayRouter, error) {
+	r, err := NewRouter(&RouterConfig{
+		CIDR: "1.2.3.0/24", MinDelay: minDelay, MaxJitter: maxJitter, QueueSize: queueSize,
+		LoggerFactory: logging.NewDefaultLoggerFactory(),
+	})
+	if err != nil {
+		return nil, err
+	}
+	s := &VerifSink{snaps: map[int]string{}}
+	nic := &verifSinkNIC{VerifSink: s, ip: net.IPv4(1, 2, 3, 4).To4(), ifc: transport.NewInterface(net.Interface{Index: 1, MTU: 1500, Name: "eth0"})}
+	if err = r.AddNet(nic); err != nil {
+		return nil, err
+	}
+	if err = r.Start(); err != nil {
+		return nil, err
+	}
+
+	return &VerifDelayRouter{R: r, Sink: s}, nil
+}
+
+// Push injects a UDP chunk for the sink into the router's queue (as a NIC's write would).
+func (v *VerifDelayRouter) Push(id, size int) {
+	if size < 4 {
+		size = 4
+	}
+	data := make([]byte, size)
+	data[0], data[1], data[2], data[3] = byte(id>>24), byte(id>>16), byte(id>>8), byte(id)
+	c := newChunkUDP(&net.UDPAddr{IP: net.IPv4(1, 2, 3, 99), Port: 1000}, &net.UDPAddr{IP: net.IPv4(1, 2, 3, 4), Port: 80})
+	c.userData = data
+	v.Sink.mu.Lock()
+	v.Sink.snaps[id] = verifSnap(c)
+	v.Sink.mu.Unlock()
+	v.R.push(c)
+}
+
+// VerifNewDelay builds a DelayFilter in front of a sink (Run is started by the caller).
+func VerifNewDelay(delay time.Duration) (*VerifFilter, error) {
+	s := &VerifSink{snaps: map[int]string{}}
+	f, err := NewDelayFilter(s, delay)
+	if err != nil {
+		return nil, err
+	}
+
+	return &VerifFilter{Sink: s, nic: f, Del: f}, nil
 }
